@@ -114,4 +114,11 @@ CHECKS = {
                              "for built-in arrays reverse() yields reference wrappers; aliasing is judged on the wrapped element"],
                 explanation="container kinds x lengths x value categories x adaptors x iteration styles, each executed on the real adaptors; "
                             "order, indices, aliasing (address and write-through) and element lifetime are judged"),
+    "C08": dict(src=["checks/C08.cpp"], nitro=[], variants=PLAIN_ASAN, runs=both, deadline_s={"quick": 300, "thorough": 1500},
+                assumptions=["narrow-character formats only (wide formats are outside the quantifier as written)",
+                             "reference: one left-to-right scan for '{}', argument text = fresh ostringstream << argument, never rescanned",
+                             "for more than 3 placeholders only the first three arguments vary"],
+                explanation="every format string over {'{','}','a'} up to the bound x argument counts 0..k+1 x argument texts containing braces and "
+                            "placeholders x both supply paths x three read paths; typed arguments/manipulators; exception messages alone and "
+                            "after every pair of earlier exceptions"),
 }
